@@ -546,7 +546,7 @@ impl World {
             out.push(Action::WriteReady);
         }
         drop(io);
-        if self.ticks_left > 0 && self.clients.iter().any(|c| c.task.is_some() && self.cur_timeout(c).is_some()) {
+        if self.ticks_left > 0 && self.clients.iter().any(|c| c.task.is_some()) {
             out.push(Action::Tick);
         }
         if self.faults_left > 0 {
@@ -1603,7 +1603,15 @@ impl World {
         if o.term {
             let pend: Vec<(usize, String)> =
                 self.clients.iter().enumerate().filter(|(_, c)| c.task.is_some()).map(|(i, c)| (i, format!("{:?}", c.cur.as_ref().unwrap().0))).collect();
+            let (werrs, rd_fault) = {
+                let io = self.io.lock().unwrap();
+                (io.write_errors, io.eof || io.read_err)
+            };
+            let failure_observable = rd_fault || werrs > 0 || self.server.saw_unbind || self.dropped_all || !self.driver_alive();
             for (i, call) in pend {
+                if !failure_observable && self.cur_marker(i).map_or(false, |m| self.plan(&m).silent) {
+                    continue; // a silent server and a healthy connection: waiting is correct
+                }
                 let why = match &self.fault_done {
                     Some((f, _)) => format!("after-{:?}", f),
                     None if self.server.saw_unbind => "after-unbind".into(),
@@ -1691,7 +1699,7 @@ impl World {
             let io = self.io.lock().unwrap();
             let _ = write!(
                 s,
-                "IO[a{} s{} e{} r{} sd{} dr{} w{:?} ww{} tail{}]",
+                "IO[a{} s{} e{} r{} sd{} dr{} w{:?} ww{} tail{} we{}]",
                 io.avail.len(),
                 io.staged.len(),
                 io.eof,
@@ -1700,7 +1708,8 @@ impl World {
                 io.dropped,
                 io.wmode,
                 io.write_waker.is_some(),
-                io.out.len() - self.server.parsed
+                io.out.len() - self.server.parsed,
+                io.write_errors
             );
         }
         for r in &self.server.reqs {
